@@ -151,8 +151,70 @@ def answerName : Option Decision → String
 def caseTable : List (String × String) :=
   Kind.caseOrder.map fun k => (k.key, answerName (outcomeOf ⟨.ok false, k, .ok "m", .ok 1⟩))
 
-/-- the text `predicate_extractor` appends to the encoded list -/
+/-- the text `predicate_extractor` appends to the encoded list (secondary, syntactic signal only) -/
 def filterSuffix : String := ".filter(predicate, !predicate.assert)"
+
+/-! ### what the model says about the translator's probe inputs
+
+The translator runs the real functions on a small fixed table of inputs; the tables below are the
+model's answers on the same inputs, computed from `filterNeg`, `toResult`, `decide`. -/
+
+/-- the probe's assertion patterns: t = true, f = false, n = not a boolean -/
+def probePatterns : List (String × List AssertV) :=
+  let t := AssertV.ok true; let f := AssertV.ok false; let n := AssertV.nonBool
+  [("t", [t]), ("f", [f]), ("n", [n]), ("tt", [t, t]), ("tf", [t, f]), ("ft", [f, t]), ("ff", [f, f]),
+   ("tn", [t, n]), ("nt", [n, t]), ("fn", [f, n]), ("nf", [n, f]), ("ftf", [f, t, f]), ("tff", [t, f, f]),
+   ("fnf", [f, n, f]), ("fft", [f, f, t])]
+
+/-- predicates numbered through their `delay` field -/
+def numbered : Nat → List AssertV → List Pred
+  | _, [] => []
+  | i, a :: rest => ⟨a, .skip, .ok "m", .ok i⟩ :: numbered (i + 1) rest
+
+def renderSurvivors : Option (List Pred) → String
+  | none => "error"
+  | some ps =>
+    match ps.map (fun p => match p.delay with | .ok d => d.toNat | _ => 99) with
+    | [] => "[]" | [0] => "[0]" | [1] => "[1]" | [2] => "[2]" | [0, 1] => "[0,1]" | [0, 2] => "[0,2]"
+    | [1, 2] => "[1,2]" | [0, 1, 2] => "[0,1,2]" | _ => "?"
+
+/-- an absent / empty list is not compiled at all ("none"); otherwise what `filterNeg` keeps -/
+def filterProbeTable : List (String × String) :=
+  ("", "none") :: probePatterns.map fun (name, as) => (name, renderSurvivors (filterNeg (numbered 0 as)))
+
+private def fp (k : Kind) (m : String) (d : Int) : Pred := ⟨.ok false, k, .ok m, .ok d⟩
+
+def renderDecision : Option Decision → String
+  | none => "continue"
+  | some (.skip "first") => "Skip:first"
+  | some (.skip "a") => "Skip:a"
+  | some (.retry 9 "wait") => "Retry:wait:9"
+  | some d => answerName (some d)
+
+/-- only the first remaining predicate decides, with its own message and delay -/
+def firstOnlyTable : List (String × String) :=
+  [("skip first; permFail second", renderDecision (toResult [fp .skip "first" 0, fp .permFail "second" 0])),
+   ("ok; permFail second", renderDecision (toResult [fp .ok "" 0, fp .permFail "second" 0])),
+   ("retry 9 wait; skip later", renderDecision (toResult [fp .retry "wait" 9, fp .skip "later" 0])),
+   ("empty", renderDecision (toResult []))]
+
+/-- `evaluate_predicates` on the probe's stand-in programs: a raise is the model's failing filter,
+    an error object in a survivor is a failed member; a result that is not a list is PermFail in the code -/
+def evaluatePredicatesTable : List (String × String) :=
+  [("raises CELEvalError", renderDecision (decide [⟨.failed, .skip, .ok "m", .ok 0⟩])),
+   ("raises ValueError", renderDecision (decide [⟨.nonBool, .skip, .ok "m", .ok 0⟩])),
+   ("returns an error value", renderDecision (decide [⟨.failed, .skip, .ok "m", .ok 0⟩])),
+   ("error in the first survivor", renderDecision (decide [⟨.ok false, .skip, .failed, .ok 0⟩, fp .skip "b" 0])),
+   ("error in a later survivor", renderDecision (decide [fp .skip "a" 0, ⟨.ok false, .skip, .failed, .ok 0⟩])),
+   ("not a list", "PermFail"),
+   ("clean: skip a; skip b", renderDecision (decide [fp .skip "a" 0, fp .skip "b" 0])),
+   ("no survivor", renderDecision (decide [⟨.ok true, .skip, .ok "m", .ok 0⟩]))]
+
+/-- how the retry arm reads a delay (the abstraction `DelayV` the harness hands to the model):
+    ints, bools (0/1), numeral strings and whole doubles are that integer; everything else is invalid -/
+def delayTable : List (String × String) :=
+  [("0", "0"), ("7", "7"), ("-1", "-1"), ("true", "1"), ("false", "0"), ("\"12\"", "12"), ("\"1.0\"", "invalid"),
+   ("\"abc\"", "invalid"), ("2.0", "2"), ("1.5", "invalid"), ("null", "invalid"), ("[1]", "invalid")]
 
 /-! ## where the lists sit in a Function -/
 
